@@ -181,3 +181,190 @@ mixed zombie(int kind) {
   enable_commands();
   return z->go(kind, this_object());
 }
+// temporaries family (generated by gen/c06_temp_gen.py): the container operand of an index / range / member operation is a TEMPORARY
+// (the value stack holds its only reference) and the value looked up is reference-counted and held only by that temporary.
+// kind = 1024 * case + value type; the result is used (sizeof / index), kept in a global, used again and only then dropped
+mixed tv(int vt) {
+  switch (vt) {
+    case 0: return ({ "v" + vt, ({ vt }) });
+    case 1: return ([ "in" + vt : ({ vt }) ]);
+    case 2: return "str" + vt + "/" + sizeof(gkeep);
+    case 3: return allocate_buffer(5);
+    case 4: return (: cbf, ({ "bound" + vt }) :);
+    case 5: { class cl c; c = new(class cl); c->a = ({ "in-class" + vt }); return c; }
+  }
+  return 0;
+}
+mapping tm(int vt) { return ([ "k" : tv(vt), "o" : 1, ({ "ak" }) : tv(vt) ]); }
+mixed *ta(int vt) { return ({ tv(vt), "o" + vt, tv(vt) }); }
+string ts(int vt) { return "tmp" + vt + "/" + sizeof(gkeep); }
+mixed tb(int vt) { return allocate_buffer(4 + vt); }
+class cl tc(int vt) { class cl c; c = new(class cl); c->a = tv(vt); c->b = vt; return c; }
+mixed each_m(mapping m) { mixed k, v, r; foreach (k, v in m) if (k == "k") r = v; return r; }
+mixed each_a(mixed *a) { mixed v, r; foreach (v in a) if (!r) r = v; return r; }
+mapping tdel(mapping m) { map_delete(m, "k"); return m; }
+int use(mixed r) {
+  if (arrayp(r)) return sizeof(r) + (sizeof(r) && arrayp(r[0]) ? sizeof(r[0]) : 0);
+  if (mapp(r)) return sizeof(keys(r)) + sizeof(values(r));
+  if (stringp(r)) return strlen(r + "!");
+  if (bufferp(r)) return sizeof(r);
+  if (functionp(r)) return 1;
+  if (classp(r)) return 2;
+  return 0;
+}
+mixed gtemp;
+mixed temp(int kind) {
+  int c = kind / 1024, vt = kind % 1024; mixed r, e; int u;
+  switch (c) {
+    case 0: e = catch(r = ([ "k" : tv(vt), "o" : 1, ({ "ak" }) : tv(vt) ])["k"]); break;
+    case 1: e = catch(r = ([ "k" : tv(vt), "o" : 1, ({ "ak" }) : tv(vt) ])["k"][0]); break;
+    case 2: e = catch(r = ([ "k" : tv(vt), "o" : 1, ({ "ak" }) : tv(vt) ])["nokey"]); break;
+    case 3: e = catch(r = ([ "k" : tv(vt), "o" : 1, ({ "ak" }) : tv(vt) ])[({ "zz" })]); break;
+    case 4: e = catch(r = sizeof(([ "k" : tv(vt), "o" : 1, ({ "ak" }) : tv(vt) ]))); break;
+    case 5: e = catch(r = keys(([ "k" : tv(vt), "o" : 1, ({ "ak" }) : tv(vt) ]))[0]); break;
+    case 6: e = catch(r = values(([ "k" : tv(vt), "o" : 1, ({ "ak" }) : tv(vt) ]))[0]); break;
+    case 7: e = catch(r = each_m(([ "k" : tv(vt), "o" : 1, ({ "ak" }) : tv(vt) ]))); break;
+    case 8: e = catch(r = ({ ([ "k" : tv(vt), "o" : 1, ({ "ak" }) : tv(vt) ])["k"], ([ "k" : tv(vt), "o" : 1, ({ "ak" }) : tv(vt) ])["o"] })); break;
+    case 9: e = catch(r = undefinedp(([ "k" : tv(vt), "o" : 1, ({ "ak" }) : tv(vt) ])["k"])); break;
+    case 10: e = catch(r = sizeof(tdel(([ "k" : tv(vt), "o" : 1, ({ "ak" }) : tv(vt) ])))); break;
+    case 11: e = catch(r = tm(vt)["k"]); break;
+    case 12: e = catch(r = tm(vt)["k"][0]); break;
+    case 13: e = catch(r = tm(vt)["nokey"]); break;
+    case 14: e = catch(r = tm(vt)[({ "zz" })]); break;
+    case 15: e = catch(r = sizeof(tm(vt))); break;
+    case 16: e = catch(r = keys(tm(vt))[0]); break;
+    case 17: e = catch(r = values(tm(vt))[0]); break;
+    case 18: e = catch(r = each_m(tm(vt))); break;
+    case 19: e = catch(r = ({ tm(vt)["k"], tm(vt)["o"] })); break;
+    case 20: e = catch(r = undefinedp(tm(vt)["k"])); break;
+    case 21: e = catch(r = sizeof(tdel(tm(vt)))); break;
+    case 22: e = catch(r = (tm(vt) + ([ "z" : 1 ]))["k"]); break;
+    case 23: e = catch(r = (tm(vt) + ([ "z" : 1 ]))["k"][0]); break;
+    case 24: e = catch(r = (tm(vt) + ([ "z" : 1 ]))["nokey"]); break;
+    case 25: e = catch(r = (tm(vt) + ([ "z" : 1 ]))[({ "zz" })]); break;
+    case 26: e = catch(r = sizeof((tm(vt) + ([ "z" : 1 ])))); break;
+    case 27: e = catch(r = keys((tm(vt) + ([ "z" : 1 ])))[0]); break;
+    case 28: e = catch(r = values((tm(vt) + ([ "z" : 1 ])))[0]); break;
+    case 29: e = catch(r = each_m((tm(vt) + ([ "z" : 1 ])))); break;
+    case 30: e = catch(r = ({ (tm(vt) + ([ "z" : 1 ]))["k"], (tm(vt) + ([ "z" : 1 ]))["o"] })); break;
+    case 31: e = catch(r = undefinedp((tm(vt) + ([ "z" : 1 ]))["k"])); break;
+    case 32: e = catch(r = sizeof(tdel((tm(vt) + ([ "z" : 1 ]))))); break;
+    case 33: e = catch(r = this_object()->tm(vt)["k"]); break;
+    case 34: e = catch(r = this_object()->tm(vt)["k"][0]); break;
+    case 35: e = catch(r = this_object()->tm(vt)["nokey"]); break;
+    case 36: e = catch(r = this_object()->tm(vt)[({ "zz" })]); break;
+    case 37: e = catch(r = sizeof(this_object()->tm(vt))); break;
+    case 38: e = catch(r = keys(this_object()->tm(vt))[0]); break;
+    case 39: e = catch(r = values(this_object()->tm(vt))[0]); break;
+    case 40: e = catch(r = each_m(this_object()->tm(vt))); break;
+    case 41: e = catch(r = ({ this_object()->tm(vt)["k"], this_object()->tm(vt)["o"] })); break;
+    case 42: e = catch(r = undefinedp(this_object()->tm(vt)["k"])); break;
+    case 43: e = catch(r = sizeof(tdel(this_object()->tm(vt)))); break;
+    case 44: e = catch(r = ({ tv(vt), "o" + vt, tv(vt) })[0]); break;
+    case 45: e = catch(r = ({ tv(vt), "o" + vt, tv(vt) })[2]); break;
+    case 46: e = catch(r = ({ tv(vt), "o" + vt, tv(vt) })[<1]); break;
+    case 47: e = catch(r = ({ tv(vt), "o" + vt, tv(vt) })[0..0]); break;
+    case 48: e = catch(r = ({ tv(vt), "o" + vt, tv(vt) })[1..]); break;
+    case 49: e = catch(r = ({ tv(vt), "o" + vt, tv(vt) })[<2..<1]); break;
+    case 50: e = catch(r = ({ tv(vt), "o" + vt, tv(vt) })[0..1][0]); break;
+    case 51: e = catch(r = ({ tv(vt), "o" + vt, tv(vt) })[0][0]); break;
+    case 52: e = catch(r = member_array("nope", ({ tv(vt), "o" + vt, tv(vt) }))); break;
+    case 53: e = catch(r = sizeof(({ tv(vt), "o" + vt, tv(vt) }))); break;
+    case 54: e = catch(r = each_a(({ tv(vt), "o" + vt, tv(vt) }))); break;
+    case 55: e = catch(r = ({ ({ tv(vt), "o" + vt, tv(vt) })[0], ({ tv(vt), "o" + vt, tv(vt) })[2] })); break;
+    case 56: e = catch(r = ta(vt)[0]); break;
+    case 57: e = catch(r = ta(vt)[2]); break;
+    case 58: e = catch(r = ta(vt)[<1]); break;
+    case 59: e = catch(r = ta(vt)[0..0]); break;
+    case 60: e = catch(r = ta(vt)[1..]); break;
+    case 61: e = catch(r = ta(vt)[<2..<1]); break;
+    case 62: e = catch(r = ta(vt)[0..1][0]); break;
+    case 63: e = catch(r = ta(vt)[0][0]); break;
+    case 64: e = catch(r = member_array("nope", ta(vt))); break;
+    case 65: e = catch(r = sizeof(ta(vt))); break;
+    case 66: e = catch(r = each_a(ta(vt))); break;
+    case 67: e = catch(r = ({ ta(vt)[0], ta(vt)[2] })); break;
+    case 68: e = catch(r = (ta(vt) + ({ tv(vt) }))[0]); break;
+    case 69: e = catch(r = (ta(vt) + ({ tv(vt) }))[2]); break;
+    case 70: e = catch(r = (ta(vt) + ({ tv(vt) }))[<1]); break;
+    case 71: e = catch(r = (ta(vt) + ({ tv(vt) }))[0..0]); break;
+    case 72: e = catch(r = (ta(vt) + ({ tv(vt) }))[1..]); break;
+    case 73: e = catch(r = (ta(vt) + ({ tv(vt) }))[<2..<1]); break;
+    case 74: e = catch(r = (ta(vt) + ({ tv(vt) }))[0..1][0]); break;
+    case 75: e = catch(r = (ta(vt) + ({ tv(vt) }))[0][0]); break;
+    case 76: e = catch(r = member_array("nope", (ta(vt) + ({ tv(vt) })))); break;
+    case 77: e = catch(r = sizeof((ta(vt) + ({ tv(vt) })))); break;
+    case 78: e = catch(r = each_a((ta(vt) + ({ tv(vt) })))); break;
+    case 79: e = catch(r = ({ (ta(vt) + ({ tv(vt) }))[0], (ta(vt) + ({ tv(vt) }))[2] })); break;
+    case 80: e = catch(r = this_object()->ta(vt)[0]); break;
+    case 81: e = catch(r = this_object()->ta(vt)[2]); break;
+    case 82: e = catch(r = this_object()->ta(vt)[<1]); break;
+    case 83: e = catch(r = this_object()->ta(vt)[0..0]); break;
+    case 84: e = catch(r = this_object()->ta(vt)[1..]); break;
+    case 85: e = catch(r = this_object()->ta(vt)[<2..<1]); break;
+    case 86: e = catch(r = this_object()->ta(vt)[0..1][0]); break;
+    case 87: e = catch(r = this_object()->ta(vt)[0][0]); break;
+    case 88: e = catch(r = member_array("nope", this_object()->ta(vt))); break;
+    case 89: e = catch(r = sizeof(this_object()->ta(vt))); break;
+    case 90: e = catch(r = each_a(this_object()->ta(vt))); break;
+    case 91: e = catch(r = ({ this_object()->ta(vt)[0], this_object()->ta(vt)[2] })); break;
+    case 92: e = catch(r = ("lit" + vt)[0]); break;
+    case 93: e = catch(r = ("lit" + vt)[<1]); break;
+    case 94: e = catch(r = ("lit" + vt)[0..1]); break;
+    case 95: e = catch(r = ("lit" + vt)[1..]); break;
+    case 96: e = catch(r = ("lit" + vt)[<2..<1]); break;
+    case 97: e = catch(r = strlen(("lit" + vt))); break;
+    case 98: e = catch(r = ts(vt)[0]); break;
+    case 99: e = catch(r = ts(vt)[<1]); break;
+    case 100: e = catch(r = ts(vt)[0..1]); break;
+    case 101: e = catch(r = ts(vt)[1..]); break;
+    case 102: e = catch(r = ts(vt)[<2..<1]); break;
+    case 103: e = catch(r = strlen(ts(vt))); break;
+    case 104: e = catch(r = (ts(vt) + "z")[0]); break;
+    case 105: e = catch(r = (ts(vt) + "z")[<1]); break;
+    case 106: e = catch(r = (ts(vt) + "z")[0..1]); break;
+    case 107: e = catch(r = (ts(vt) + "z")[1..]); break;
+    case 108: e = catch(r = (ts(vt) + "z")[<2..<1]); break;
+    case 109: e = catch(r = strlen((ts(vt) + "z"))); break;
+    case 110: e = catch(r = this_object()->ts(vt)[0]); break;
+    case 111: e = catch(r = this_object()->ts(vt)[<1]); break;
+    case 112: e = catch(r = this_object()->ts(vt)[0..1]); break;
+    case 113: e = catch(r = this_object()->ts(vt)[1..]); break;
+    case 114: e = catch(r = this_object()->ts(vt)[<2..<1]); break;
+    case 115: e = catch(r = strlen(this_object()->ts(vt))); break;
+    case 116: e = catch(r = allocate_buffer(4 + vt)[0]); break;
+    case 117: e = catch(r = allocate_buffer(4 + vt)[<1]); break;
+    case 118: e = catch(r = allocate_buffer(4 + vt)[0..1]); break;
+    case 119: e = catch(r = allocate_buffer(4 + vt)[1..]); break;
+    case 120: e = catch(r = sizeof(allocate_buffer(4 + vt))); break;
+    case 121: e = catch(r = tb(vt)[0]); break;
+    case 122: e = catch(r = tb(vt)[<1]); break;
+    case 123: e = catch(r = tb(vt)[0..1]); break;
+    case 124: e = catch(r = tb(vt)[1..]); break;
+    case 125: e = catch(r = sizeof(tb(vt))); break;
+    case 126: e = catch(r = (tb(vt) + tb(vt))[0]); break;
+    case 127: e = catch(r = (tb(vt) + tb(vt))[<1]); break;
+    case 128: e = catch(r = (tb(vt) + tb(vt))[0..1]); break;
+    case 129: e = catch(r = (tb(vt) + tb(vt))[1..]); break;
+    case 130: e = catch(r = sizeof((tb(vt) + tb(vt)))); break;
+    case 131: e = catch(r = this_object()->tb(vt)[0]); break;
+    case 132: e = catch(r = this_object()->tb(vt)[<1]); break;
+    case 133: e = catch(r = this_object()->tb(vt)[0..1]); break;
+    case 134: e = catch(r = this_object()->tb(vt)[1..]); break;
+    case 135: e = catch(r = sizeof(this_object()->tb(vt))); break;
+    case 136: e = catch(r = new(class cl, a : tv(vt), b : vt)->a); break;
+    case 137: e = catch(r = new(class cl, a : tv(vt), b : vt)->a[0]); break;
+    case 138: e = catch(r = new(class cl, a : tv(vt), b : vt)->b); break;
+    case 139: e = catch(r = tc(vt)->a); break;
+    case 140: e = catch(r = tc(vt)->a[0]); break;
+    case 141: e = catch(r = tc(vt)->b); break;
+    case 142: e = catch(r = ((class cl) this_object()->tc(vt))->a); break;
+    case 143: e = catch(r = ((class cl) this_object()->tc(vt))->a[0]); break;
+    case 144: e = catch(r = ((class cl) this_object()->tc(vt))->b); break;
+  }
+  u = use(r);
+  gtemp = r; r = 0;
+  u += use(gtemp);
+  gtemp = 0;
+  return ({ kind, e, u });
+}
